@@ -133,13 +133,15 @@ def evaluate(run, sc, exe, drv, tier, seed):
     got = fw.run_lines(exe, lines)
     mlines = []
     for cid, (kind, body, sname, script, ref, pieces) in meta.items():
-        if kind in ('datum', 'datum-ser') and sname != 'flushfail':
+        # (the model appends to the sink's data at every call: quadratic in the number of calls - long values are left to the
+        # property predicate alone)
+        if kind in ('datum', 'datum-ser') and sname != 'flushfail' and len(ref) <= 20000:
             ps, pos = [], 0
             for p in pieces:
                 ps.append(hx(ref[pos:pos + p])); pos += p
             sp = parse(script)
             mlines.append('%s (sinkmodel (pieces %s) (script %s %s))' % (cid, ' '.join(ps), sp[1], ' '.join(show(x) for x in sp[3:])))
-        if kind == 'so' and not body.startswith('(so-typed') and not _multi_map(body) and body in ref_marks and sname != 'flushfail':
+        if kind == 'so' and not body.startswith('(so-typed') and not _multi_map(body) and body in ref_marks and sname != 'flushfail' and len(ref) <= 20000:
             rm = ref_marks[body]
             msgs = [ref[(rm[j - 1] if j else 0):rm[j]] for j in range(len(rm))]
             if msgs and all(len(m) >= 10 and m[:10] == msgs[0][:10] for m in msgs):
